@@ -14,6 +14,20 @@ sys.path.insert(0, os.path.dirname(os.path.dirname(os.path.dirname(os.path.abspa
 from audit.contracts import contract_for  # noqa: E402
 
 
+VL, VC, VI = (("g", "vlen"),), (("g", "vcap"),), (("g", "init"),)
+HEAP_MAX = 1 << 60          # a Vec<u64> cannot hold more than isize::MAX / 8 elements
+
+
+def heap_inv(st, K, lo=0):
+    """INV of the heap back-end at the Vec cell K: 0 <= length <= initialised prefix <= capacity <= 2^60"""
+    ln, init, cap = new_int(lo, HEAP_MAX), new_int(lo, HEAP_MAX), new_int(lo, HEAP_MAX)
+    st.env[K] = new_obj(("vec",))
+    st.env[K + VL], st.env[K + VI], st.env[K + VC] = ln, init, cap
+    st.add_fact(ln, init, 0)
+    st.add_fact(init, cap, 0)
+    return ln
+
+
 def is_vec_ty(ty):
     n = ty.get("name", "") if ty.get("k") == "adt" else ""
     return n.endswith("stackvec::StackVec") or n.endswith("heapvec::HeapVec")
@@ -51,11 +65,11 @@ class Modular:
     def establish_inv(self, st, vkey, lo=0, hi=None):
         from .engine import write
         hi = self.cap if hi is None else hi
+        if self.heap:
+            write(st, vkey, None)
+            return heap_inv(st, vkey + (("f", 0),), lo)
         ln = new_int(lo, hi)
         write(st, vkey, None)
-        if self.heap:
-            st.env[vkey + (("f", 0),)] = new_obj(("vec", ln))
-            return ln
         st.env[vkey + (("f", 0),)] = new_obj(("array", ("n", self.cap)))
         st.env[vkey + (("f", 0), ("g", "init"))] = ln
         st.env[vkey + (("f", 1),)] = ln
@@ -63,6 +77,14 @@ class Modular:
 
     def check_inv(self, st, vkey, inst, span, what):
         if self.heap:
+            K = vkey + (("f", 0),)
+            ln, init, cap = st.env.get(K + VL), st.env.get(K + VI), st.env.get(K + VC)
+            ok = False
+            detail = "heap vector state not tracked at %s" % (vkey,)
+            if is_int(ln) and is_int(init) and is_int(cap):
+                ok = st.get_iv(ln)[0] >= 0 and st.diff_le(ln, init, 0) and st.diff_le(init, cap, 0)
+                detail = "length %s initialised prefix %s capacity %s" % (st.get_iv(ln), st.get_iv(init), st.get_iv(cap))
+            self.ctx.oblige("vector-invariant " + what, ok, inst, span, detail)
             return
         ln = st.env.get(vkey + (("f", 1),))
         init = st.env.get(vkey + (("f", 0), ("g", "init")))
@@ -142,10 +164,17 @@ class Modular:
                 vec_prefixes.append(p[:-1])       # p = prefix + (("f", 0),)
         for vp in vec_prefixes:
             if self.heap:
-                a = d.get(vp + (("f", 0),))
-                ln = G.obj[a][1]
-                r = st.get_iv(ln) if is_int(ln) else (0, 1 << 62)
-                out[vp] = ("vec", r[0], r[1])
+                K = vp + (("f", 0),)
+                ln, init, cap = d.get(K + VL), d.get(K + VI), d.get(K + VC)
+                ok = False
+                r = (0, HEAP_MAX)
+                detail = "heap vector state not tracked"
+                if is_int(ln) and is_int(init) and is_int(cap):
+                    r = st.get_iv(ln)
+                    ok = r[0] >= 0 and st.diff_le(ln, init, 0) and st.diff_le(init, cap, 0)
+                    detail = "length %s initialised prefix %s capacity %s" % (r, st.get_iv(init), st.get_iv(cap))
+                self.ctx.oblige("vector-invariant at exit (returned vector)", ok, callee, callee.get("span"), detail)
+                out[vp] = ("vec", max(r[0], 0), min(r[1], HEAP_MAX))
                 continue
             ln = d.get(vp + (("f", 1),))
             init = d.get(vp + (("f", 0), ("g", "init")))
@@ -196,7 +225,13 @@ class Modular:
             elif s[0] == "vec":
                 ln = new_int(s[1], s[2])
                 if self.heap:
-                    d[p + (("f", 0),)] = new_obj(("vec", ln))
+                    K = p + (("f", 0),)
+                    init = new_int(s[1], HEAP_MAX)
+                    cap = new_int(s[1], HEAP_MAX)
+                    d[K] = new_obj(("vec",))
+                    d[K + VL], d[K + VI], d[K + VC] = ln, init, cap
+                    st.add_fact(ln, init, 0)
+                    st.add_fact(init, cap, 0)
                 else:
                     d[p + (("f", 0),)] = new_obj(("array", ("n", self.cap)))
                     d[p + (("f", 0), ("g", "init"))] = ln
